@@ -355,6 +355,9 @@ impl<'a> Peripheral<'a> {
                 // when it comes back.
                 log::warn!("Peripheral #{} stopped responding!", self.address);
                 self.state = PeripheralState::Offline;
+                // The peripheral may have lost track of our frame count bit by now, so start a
+                // new sequence (FCV=0/FCB=1) when probing it.
+                self.fcb.reset();
                 Err((tx, Some(PeripheralEvent::Offline)))
             }
             PeripheralState::Offline => {
